@@ -211,5 +211,8 @@ theorem compare_skeletons : Skeletons.CompareShape := Skeletons.compare_shape
 theorem checkerAfter_skeletons : Skeletons.CheckerAfterShape := Skeletons.checkerAfter_shape
 theorem optBefore_skeletons : Skeletons.OptBeforeShape := Skeletons.optBefore_shape
 theorem optAfter_skeletons : Skeletons.OptAfterShape := Skeletons.optAfter_shape
+theorem f_vm_vm_skeletons : Skeletons.F_vm_vmShape := Skeletons.f_vm_vm_shape
+theorem f_opt_opt_skeletons : Skeletons.F_opt_optShape := Skeletons.f_opt_opt_shape
+theorem f_compiler_compiler_skeletons : Skeletons.F_compiler_compilerShape := Skeletons.f_compiler_compiler_shape
 
 end MtailVerif.C02
